@@ -410,4 +410,19 @@ theorem typedDict_own_members_survive (E : Env) (k : Kind) (cfg : Cfg) (props : 
   rw [tdOwn_names props fs hlen]
   exact (fields_distinct E k cfg props excl fs ex hal h).1
 
+/-- …and that is as far as it goes: members of one class declared in SEVERAL places of its schema (two inline
+objects of an `allOf`, an `allOf` item plus sibling `properties`) come from separate `parse_object_fields`
+calls, each starting with empty excludes. The different keys `sku-` and `sku_` both become the member `sku_`,
+and the constructor drops the second: its key is not a key of the class (known finding
+C07-ALLOF-SPLIT-MEMBERS; the full statement "every declared key of the schema is a key" is false there). -/
+theorem split_declarations_lose_key :
+    foldProps pyEnv .pydantic {} [("sku-".toList, false)] [] =
+      .ok ([(("sku_".toList, some "sku-".toList), false)], ["sku_".toList]) ∧
+    foldProps pyEnv .pydantic {} [("sku_".toList, false)] [] =
+      .ok ([(("sku_".toList, none), false)], ["sku_".toList]) ∧
+    (TdClass.mk' [] (tdOwn [("sku-".toList, false)] [(("sku_".toList, some "sku-".toList), false)] ++
+                     tdOwn [("sku_".toList, false)] [(("sku_".toList, none), false)])).rendered.map (·.1)
+      = ["sku-".toList] := by
+  refine ⟨by decide +kernel, by decide +kernel, by decide +kernel⟩
+
 end Dcg.Props.C07
